@@ -74,6 +74,25 @@ def op_and(a, b):
     return a & b
 
 
+def accumulate_add(iterable, initial, has_initial):
+    total = initial
+    if has_initial:
+        yield total
+    for item in iterable:
+        if has_initial:
+            total = total + item
+        else:
+            total = item
+            has_initial = True
+        yield total
+
+
+def compress2(data, selectors):
+    for item, flag in zip(data, selectors):
+        if flag:
+            yield item
+
+
 def filter1(function, iterable):
     for item in iterable:
         if function(item):
@@ -218,6 +237,18 @@ class Program:
                 ci = ClassInfo(f'{mod.name}.{st.name}', st, mod)
                 self.classes[ci.qualname] = ci
                 mod.symbols[st.name] = ('class', ci)
+                for b in st.bases:
+                    # class X(collections.namedtuple('X', 'a b')) / (namedtuple('X', ['a', 'b']))
+                    if isinstance(b, ast.Call) and ast.unparse(b.func).split('.')[-1] == 'namedtuple' and len(b.args) >= 2:
+                        try:
+                            spec = ast.literal_eval(b.args[1])
+                        except Exception:
+                            spec = None
+                        if isinstance(spec, str):
+                            spec = spec.replace(',', ' ').split()
+                        if isinstance(spec, (list, tuple)) and all(isinstance(x, str) for x in spec):
+                            ci.ann_fields = list(spec)
+                            ci.namedtuple_base = True
                 for cst in st.body:
                     if isinstance(cst, ast.FunctionDef):
                         fi = FuncInfo(f'{ci.qualname}.{cst.name}', cst, mod, ci)
